@@ -156,6 +156,8 @@ class Repo:
             for fn in sorted(filenames):
                 if not fn.endswith(".py"):
                     continue
+                if fn.endswith("_test.py") or fn == "testdata.py":
+                    continue   # tests and test data are never rule targets
                 path = os.path.join(dirpath, fn)
                 rel = os.path.relpath(path, self.root)[:-3].replace(os.sep, ".")
                 if rel.endswith(".__init__"):
@@ -172,6 +174,12 @@ class Repo:
                     q = m.name + "." + stmt.name
                     self.classes[q] = ClassInfo(self, m, stmt, q)
         self._mro_cache = {}
+        from .match import set_literal_names
+        names = set()
+        for m in self.modules.values():
+            names.update(m.symbols)
+            names.update(m.imports)
+        set_literal_names(names)
 
     # ---------------------------------------------------------- lookup
     def module(self, name):
